@@ -78,14 +78,15 @@ def _drive(sc, loop, run, script, prefix):
                     continue
             # fire the event
             pos += 1
-            if ev == 't' or (isinstance(ev, tuple) and ev[0] == 't'):
+            if isinstance(ev, (tuple, list)) and ev[0] == 't' and ev[1] is not None:
+                # advance the clock by exactly ev[1] ms; timers that fall due on the way are queued in deadline order
+                loop.advance_to_us(loop.us + int(ev[1] * 1000))
+                run.trace.append(('fire', 'tick', loop.us, -2))
+            elif ev == 't' or (isinstance(ev, (tuple, list)) and ev[0] == 't'):
                 nxt = loop.next_timer_us()
                 if nxt is None:
                     run.trace.append(('fire', 'tick-noop', loop.us))
                     continue
-                if isinstance(ev, tuple) and ev[0] == 't' and ev[1] is not None:
-                    # tick by a stated delta (ms) if no timer is earlier
-                    nxt = min(nxt, loop.us + ev[1] * 1000)
                 loop.us = nxt
                 due = loop.due_timers()
                 order = None
